@@ -4,6 +4,8 @@ import H2.Server.Lock.Slots
 import H2.Server.Lock.Recv
 import H2.Server.Lock.Closing
 import H2.Server.Lock.Limits
+import H2.Server.Lock.StreamSM
+import H2.Server.Lock.Msg
 /-!
 # Lockstep: the abstract per-property models run beside the full server model
 
@@ -27,6 +29,8 @@ structure Lock where
   recv : Lock.Recv.L := .init
   closing : Lock.Closing.L := .init
   limits : Lock.Limits.L := .init
+  sm : Lock.StreamSM.L := .init
+  msg : Lock.Msg.L := .init
   mismatches : List String := []
 deriving Inhabited
 
@@ -111,7 +115,9 @@ def Lock.step (l : Lock) (before : Srv) (ev : Event) (r : R) : Lock :=
   let (rl, m2) := l.recv.step before ev r
   let (cl, m3) := l.closing.step before ev r
   let (ll, m4) := l.limits.step before ev r
-  { l with slots := sl, recv := rl, closing := cl, limits := ll,
-           mismatches := l.mismatches ++ m1.toList ++ m2.toList ++ m3.toList ++ m4.toList }
+  let (sml, m5) := l.sm.step before ev r
+  let (mgl, m6) := l.msg.step before ev r
+  { l with slots := sl, recv := rl, closing := cl, limits := ll, sm := sml, msg := mgl,
+           mismatches := l.mismatches ++ m1.toList ++ m2.toList ++ m3.toList ++ m4.toList ++ m5.toList ++ m6.toList }
 
 end H2.Server
